@@ -181,7 +181,7 @@ func (s *Swarm) getConn(ctx context.Context, addr Addr) (*Conn, error) {
 	s.mu.Lock()
 	defer s.mu.Unlock()
 	if s.closed {
-		c.sconn.Close()
+		c.abandon()
 		return nil, p2p.ErrClosed
 	}
 	remoteAddr := c.RemoteAddr()
@@ -212,7 +212,7 @@ func (s *Swarm) serveLoop(ctx context.Context) {
 			}
 			if !s.addConn(c) {
 				// the swarm was closed while this connection was being set up
-				c.sconn.Close()
+				c.abandon()
 				return
 			}
 			go c.loop(ctx)
